@@ -63,6 +63,12 @@ ConvertOK(items) ==
     /\ \A f \in NumSites : HasField(items, "Hub", f) /\ Mentions(Field(items, "Hub", f), "crate::support::Num")
                            /\ ~Mentions(Field(items, "Hub", f), "f64")
     /\ \E x \in VariantFields(items, "HubVar", "N") : Mentions(x, "crate::support::Num")
+    (* a conversion is for the schema it names, numeric validation included: the bounded-integer
+       conversion applies to byte / bytearr and to no other integer member *)
+    /\ Mentions(Field(items, "Hub", "byte"), "crate::support::ReplT") /\ Mentions(Field(items, "Hub", "bytearr"), "crate::support::ReplT")
+    /\ ~Mentions(Field(items, "Hub", "otherbound"), "crate::support::ReplT")
+    /\ ~Mentions(Field(items, "Hub", "fmap"), "crate::support::ReplT")
+    /\ ~Mentions(Field(items, "Other", "n"), "crate::support::ReplT")
 
 DeriveOK(items) == \A i \in Top(items) : "PartialEq" \in Range(items[i].derives)
 
